@@ -746,6 +746,39 @@ class World(object):
         x = Fxp(self.containers[c][0], s, w, f, **kw)
         self.finish_new(st, x)
 
+    def op_store_cont(self, st):
+        """Write a caller-owned container into an existing object (call / set_val / raw / indexed)."""
+        op = st.op
+        if not self.containers:
+            raise Skip('no container')
+        c = op['c'] % len(self.containers)
+        via = op.get('via', 'call')
+        if via == 'setitem':
+            d = self.ref(op['slot'], lambda o: np.asarray(o.val).ndim > 0)
+            index = decode_index(op['index'])
+            st.kind = 'indexed'
+            self.plan_indexed(st, d, index)
+        else:
+            d = self.ref(op['slot'])
+            self._plan_inplace(st, d)
+        st.extra['container'] = c
+        st.store = Store('dest', route='store_container', judge_flags=False, judge_cb=False)
+        yield
+        self.bump('container_used')
+        cont = self.containers[c][0]
+        o = self.obj(d)
+        if via == 'setitem':
+            o[index] = cont
+        elif via == 'raw':
+            o.set_val(cont, raw=True)
+            self.fresh_buffer(d)
+        elif via == 'set_val':
+            o.set_val(cont)
+            self.fresh_buffer(d)
+        else:
+            o(cont)
+            self.fresh_buffer(d)
+
     def op_frombin_fn(self, st):
         op = st.op
         self.room()
